@@ -60,7 +60,7 @@ def one(desc):
             if err0 == 0 or cc == 'hi': return None
             t0=time.time()
             res = C._iterate(U, P, unflat(P.x0, P.X), CAP, RHO*err0, solver)
-            return (solver, case['family'], cc, res['k'], res['err']/err0, res['diverged'], time.time()-t0, desc)
+            return (C._calib_solver(desc), case['family'], cc, res['k'], res['err']/err0, res['diverged'], time.time()-t0, desc)
     except Exception as e:
         import traceback
         return ('ERR', traceback.format_exc()[-800:], desc)
